@@ -74,6 +74,18 @@ check("C01", "TLC model checking of CondParser.tla (operator-precedence machine 
       "Trusted: TLC; the renderer and the n-ary normalisation (same-operator children merged unless bracketed). Lark/Earley itself is only "
       "observed through conformance.", "DESIGN.md 3.2, 5/C01")
 
+check("C02", "TLC model checking of Lexer.tla (character level) and AhbSplit.tla (AHB token level) against the declarative language CondLang + "
+      "replay of every viable prefix and of not-enabled continuations at all four entry points + TLC trace validation of parser verdicts on "
+      "mutated expressions + garbage",
+      "TLC enumerates every viable prefix of the condition language at character-class level (<=6 characters replayed / <=8 checked quick; 8/10 "
+      "thorough) and of the AHB-expression language at token level (<=5 / <=7 tokens) and proves that acceptance coincides with the "
+      "documented well-formedness; every prefix is rendered with seeded representatives and must be accepted/rejected with SyntaxError by "
+      "the condition parser and the resolver exactly as the spec says, not-enabled continuations must be rejected, rejected strings must make "
+      "is_valid_expression return (False, message); verdicts of the real parser on thousands of mutated long expressions are decided by "
+      "TLC (LexerTrace); random garbage checks that nothing but SyntaxError escapes from any entry point.",
+      "Trusted: TLC; the class representatives (every class has several, 'bad' has 35 incl. NBSP, VT, other Unicode digits/letters); the "
+      "AHB-only parser is deliberately not required to reject malformed condition parts (DESIGN 5/C02).", "DESIGN.md 3.2, 3.3, 5/C02")
+
 NOT_BUILT = "check under construction in this session (specification module planned in DESIGN.md section 3); not claimed yet"
 
 
